@@ -4,7 +4,8 @@
    LV.PropTree.DocSpec. *)
 Require Import List NArith ZArith Bool.
 Import ListNotations.
-Require Import LV.PropTree.PropModel LV.PropTree.DocSpec LV.PropTree.PropProofs LV.PropTree.QuoteProofs.
+Require Import LV.PropTree.PropModel LV.PropTree.DocSpec LV.PropTree.PropProofs LV.PropTree.QuoteProofs
+        LV.PropTree.RebuildProofs LV.PropTree.ApiProofs.
 
 (* For every sequence of set / delete / get / type / count / keys / get_subtree / set_subtree
    operations (including the compound "set_subtree, then set / delete on the returned anchor") the
@@ -54,3 +55,165 @@ Theorem c13_quote_key_nested (k k2 : bytes) :
   parse (quote_key k ++ 46%N :: quote_key k2) = Some ([E_MAP_ELEMENT k; E_MAP_ELEMENT k2], T_EOF, []).
 Proof. exact (parse_quote_key_two k k2). Qed.
 Print Assumptions c13_quote_key_nested.
+
+(* ---------------------------------------------------------------- operation sequences with copy.
+   The same refinement for EVERY op sequence including vnaproperty_copy out of and into subtrees,
+   along which the states stay well-formed (map keys non-empty and distinct - what the API builds -
+   and lists shorter than 2^31 - 1).  Partial: that the modifying calls preserve well-formedness
+   is a hypothesis here (wf_run), not a theorem. *)
+Theorem c13_prop_refines_doc_partial (ops : list op) (s : state) :
+  wf_run s ops ->
+  d_run (abs_state s) ops = (abs_state (fst (run s ops)), map abs_out (snd (run s ops))).
+Proof. exact (sim_run ops s). Qed.
+Print Assumptions c13_prop_refines_doc_partial.
+
+Theorem c13_prop_refines_doc_satisfiable : wf_run init_state example_ops.
+Proof. exact wf_run_example. Qed.
+Print Assumptions c13_prop_refines_doc_satisfiable.
+
+(* vnaproperty_copy is a deep copy (DP1 fixed): whatever the destination held, for every
+   well-formed source, including empty maps and lists at any depth. *)
+Theorem c13_copy_is_deep_copy (dest src : node) : wf src -> abs (copy dest src) = abs src.
+Proof. exact (copy_abs dest src). Qed.
+Print Assumptions c13_copy_is_deep_copy.
+
+(* "[%d]" descriptors address exactly that index (used by copy and by the YAML importer) *)
+Theorem c13_index_descriptor (i : nat) :
+  (Z.of_nat i < 2147483648)%Z -> parse (index_desc i) = Some ([E_LIST_ELEMENT (Z.of_nat i)], T_EOF, []).
+Proof. exact (parse_index_desc i). Qed.
+Print Assumptions c13_index_descriptor.
+
+(* ---------------------------------------------------------------- API-level statements *)
+(* non-modifying calls never change the tree *)
+Theorem c13_readonly_preserves (s : state) (o : op) : readonly o = true -> fst (step s o) = s.
+Proof. exact (readonly_preserves s o). Qed.
+Print Assumptions c13_readonly_preserves.
+
+(* get after set, through the quoted key, for every non-empty key and every value *)
+Theorem c13_get_after_set (root : node) (k v : bytes) :
+  k <> [] ->
+  vget (fst (vset root (quote_key k ++ 61%N :: v))) (quote_key k) = mkOut 0 E0 (PStr v)
+  /\ snd (vset root (quote_key k ++ 61%N :: v)) = ok0.
+Proof. exact (get_after_set_quoted root k v). Qed.
+Print Assumptions c13_get_after_set.
+
+(* ... and along every path of keys and in-range subscripts *)
+Theorem c13_get_after_set_path (es : list expr) (n x : node) :
+  Forall plain_step es ->
+  descend_get es (fst (descend_set es (fun _ => (x, tt)) n)) = inr x
+  /\ snd (descend_set es (fun _ => (x, tt)) n) = inr tt.
+Proof. exact (get_set_path es n x). Qed.
+Print Assumptions c13_get_after_set_path.
+
+(* delete removes the entry and shifts the higher indices down by one *)
+Theorem c13_delete_shifts (i : nat) (vec : list node) (al j : nat) :
+  (i < length vec)%nat ->
+  delete_at [E_LIST_ELEMENT (Z.of_nat i)] (NList vec al) = NList (remove_nth i vec) al /\
+  nth_error (remove_nth i vec) j = (if Nat.ltb j i then nth_error vec j else nth_error vec (S j)) /\
+  length (remove_nth i vec) = pred (length vec).
+Proof. exact (delete_shifts i vec al j). Qed.
+Print Assumptions c13_delete_shifts.
+
+(* [i+] inserts a null at i and shifts the rest up; [+] appends *)
+Theorem c13_insert_shifts (i : nat) (vec : list node) (al j : nat) :
+  (i < length vec)%nat ->
+  list_insert vec al (Z.of_nat i) = Some (insert_nth i NNull vec, check_allocation al (S (length vec)), i) /\
+  nth_error (insert_nth i NNull vec) j
+  = (if Nat.ltb j i then nth_error vec j else if Nat.eqb j i then Some NNull else nth_error vec (pred j)).
+Proof. exact (insert_shifts i vec al j). Qed.
+Print Assumptions c13_insert_shifts.
+
+Theorem c13_append_at_end (vec : list node) (al : nat) :
+  list_append vec al = (vec ++ [NNull], check_allocation al (S (length vec)), length vec).
+Proof. exact (append_at_end vec al). Qed.
+Print Assumptions c13_append_at_end.
+
+(* set replaces a conflicting node (anything that is not a map / not a list) by a fresh one *)
+Theorem c13_set_replaces_conflict {A} (k : bytes) (es : list expr) (fin : node -> node * A) (n : node) :
+  (forall kv, n <> NMap kv) ->
+  fst (descend_set (E_MAP_ELEMENT k :: es) fin n) = NMap [(k, fst (descend_set es fin NNull))].
+Proof. exact (set_replaces_conflict k es fin n). Qed.
+Print Assumptions c13_set_replaces_conflict.
+
+Theorem c13_set_replaces_conflict_list {A} (es : list expr) (fin : node -> node * A) (n : node) :
+  (forall vec al, n <> NList vec al) ->
+  fst (descend_set (E_LIST_ELEMENT 0 :: es) fin n) = NList [fst (descend_set es fin NNull)] 8.
+Proof. exact (set_replaces_conflict_list es fin n). Qed.
+Print Assumptions c13_set_replaces_conflict_list.
+
+(* deleting "key" removes the entry, deleting "key." keeps the slot with a null value *)
+Theorem c13_trailing_dot_keeps_slot (k : bytes) (kv : list (bytes * node)) (c : node) :
+  lookup k kv = Some c ->
+  delete_at [E_MAP_ELEMENT k] (NMap kv) = NMap (remove_key k kv) /\
+  delete_at [E_MAP_ELEMENT k; E_DOT] (NMap kv) = NMap (update k NNull kv).
+Proof. exact (delete_entry_vs_trailing_dot k kv c). Qed.
+Print Assumptions c13_trailing_dot_keeps_slot.
+
+(* ---------------------------------------------------------------- errors as documented *)
+(* a malformed descriptor: EINVAL from every entry point, nothing changes *)
+Theorem c13_malformed_descriptor_einval (root aux : node) (d : bytes) :
+  parse d = None ->
+  vget root d = fail EINVAL /\ vtype root d = fail EINVAL /\ vcount root d = fail EINVAL /\
+  vkeys root d = fail EINVAL /\ vget_subtree root d = fail EINVAL /\
+  vset root d = (root, fail EINVAL) /\ vdelete root d = (root, fail EINVAL) /\
+  vset_subtree root d = (root, fail EINVAL) /\
+  (forall o, In o [OSet d; ODel d; OGet d; OType d; OCount d; OKeys d; OGetSub d; OSetSub d] ->
+             step (mkState root aux) o = (mkState root aux, fail EINVAL)).
+Proof. exact (malformed_einval root aux d). Qed.
+Print Assumptions c13_malformed_descriptor_einval.
+
+(* a valid descriptor followed by trailing tokens is rejected by every entry point that takes
+   no value, get_subtree included (D1 fixed), and nothing changes (D54 fixed) *)
+Theorem c13_trailing_tokens_rejected (root : node) (d : bytes) es t r :
+  parse d = Some (es, t, r) -> is_eof t = false ->
+  is_error (vget root d) /\ is_error (vtype root d) /\ is_error (vcount root d) /\
+  is_error (vkeys root d) /\ is_error (vget_subtree root d) /\
+  (fst (vdelete root d) = root /\ is_error (snd (vdelete root d))) /\
+  vset_subtree root d = (root, fail EINVAL).
+Proof. exact (trailing_tokens_rejected root d es t r). Qed.
+Print Assumptions c13_trailing_tokens_rejected.
+
+(* a set that is refused (target is "{}" / "[]", or neither "=value" nor "#" follows) leaves the
+   tree unchanged (D54 fixed) *)
+Theorem c13_refused_set_unchanged (root : node) (d : bytes) es t rest :
+  parse d = Some (es, t, rest) ->
+  last_is_collection es = true \/ (t <> T_ASSIGN /\ t <> T_HASH) ->
+  vset root d = (root, fail EINVAL).
+Proof. exact (refused_set_unchanged root d es t rest). Qed.
+Print Assumptions c13_refused_set_unchanged.
+
+(* type mismatches give EINVAL, absent keys / indices and paths below a null give ENOENT,
+   insert / append subscripts in non-modifying calls give EINVAL *)
+Theorem c13_lookup_errors (k : bytes) (i : Z) es v kv vec al :
+  descend_get (E_MAP_ELEMENT k :: es) (NScalar v) = inl EINVAL /\
+  descend_get (E_MAP_ELEMENT k :: es) (NList vec al) = inl EINVAL /\
+  descend_get (E_LIST_ELEMENT i :: es) (NScalar v) = inl EINVAL /\
+  descend_get (E_LIST_ELEMENT i :: es) (NMap kv) = inl EINVAL /\
+  descend_get (E_MAP :: es) (NList vec al) = inl EINVAL /\
+  descend_get (E_LIST :: es) (NMap kv) = inl EINVAL /\
+  (lookup k kv = None -> descend_get (E_MAP_ELEMENT k :: es) (NMap kv) = inl ENOENT) /\
+  ((Z.of_nat (length vec) <= i)%Z -> descend_get (E_LIST_ELEMENT i :: es) (NList vec al) = inl ENOENT) /\
+  descend_get (E_MAP_ELEMENT k :: es) NNull = inl ENOENT /\
+  descend_get (E_LIST_ELEMENT i :: es) NNull = inl ENOENT /\
+  descend_get (E_LIST_INSERT i :: es) (NList vec al) = inl EINVAL /\
+  descend_get (E_LIST_APPEND :: es) (NList vec al) = inl EINVAL.
+Proof. exact (lookup_errors k i es v kv vec al). Qed.
+Print Assumptions c13_lookup_errors.
+
+Theorem c13_value_kind_errors (root : node) (d : bytes) (n : node) :
+  get_node root d = inr n ->
+  (forall kv, n = NMap kv -> vget root d = fail EINVAL) /\
+  (forall vec al, n = NList vec al -> vget root d = fail EINVAL /\ vkeys root d = fail EINVAL) /\
+  (forall v, n = NScalar v -> vcount root d = fail EINVAL /\ vkeys root d = fail EINVAL).
+Proof. exact (value_kind_errors root d n). Qed.
+Print Assumptions c13_value_kind_errors.
+
+(* every accepted descriptor is a non-empty path whose "{}", "[]" or trailing "." can only be
+   the last element; the empty descriptor is refused *)
+Theorem c13_parse_shape (d : bytes) es t r : parse d = Some (es, t, r) -> shape es.
+Proof. exact (parse_shape d es t r). Qed.
+Print Assumptions c13_parse_shape.
+
+Theorem c13_empty_descriptor_refused : parse [] = None.
+Proof. exact parse_empty. Qed.
+Print Assumptions c13_empty_descriptor_refused.
